@@ -2,7 +2,15 @@
 
 Correspondence: fault injection on the real `glotaran.optimization.optimize.optimize` (a test
 megacomplex whose `calculate_matrix` raises / returns non-finite values at its n-th call), the
-observed optimiser schedule is fed to the Lean state machine `optimizeSM`, outcomes are diffed.
+observed optimiser schedule is fed to the Lean state machine `optimizeSM`, outcomes are diffed:
+  * `run`  — control flow: vectors are ids (`ParamOps.plain`);
+  * `runp` — values: the scheme's parameters and the observed vectors as exact rationals
+    (`paramOps`, C11's parameter model); the model answers with terms over log/exp which are
+    evaluated here with numpy doubles and compared with the Result's parameter values, every history
+    row and the parameter sets the additional penalties / result data were computed from.
+The machine interprets statement tables which `generate` extracts from optimizer.py with `ast`
+(order of the effectful statements of __init__, calculate_penalty, objective_function, optimize,
+create_result).
 Oracle: the statement of C15 evaluated on the same runs from the injection plan alone.
 """
 from __future__ import annotations
@@ -28,18 +36,34 @@ REQUIRED_THEOREMS = [
     "raise_propagates_lsq", "lsq_failure_contained", "success_reported", "stdout_restored",
     "stdout_is_tee_during_optimisation", "scheme_untouched", "invalid_rejected_before_eval",
     "documented_error_classes", "history_only_successful", "verbose_irrelevant",
+    # deepening: exactly which faults are contained (D16 / SVD escape characterised)
+    "outcome_classified", "result_iff", "covariance_failure_escapes", "fault_contained_iff", "fault_escape_which",
+    # order of effects follows the regenerated statement tables
+    "penalties_and_data_of_result_parameters",
+    # the restored parameter VALUES (C11's parameter model inside the machine)
+    "restored_parameters_are_record_mapped_back", "restored_parameters_roundtrip_bound",
 ]
 TRUSTED = [
     "hand-written model lean/GlotaranModel/C15.lean of Optimizer.__init__/optimize/objective_function/"
     "calculate_penalty/create_result (glotaran/optimization/optimizer.py), optimize() (optimize.py), "
     "TeeContext.__enter__/__exit__ (utils/tee.py), Parameters.set_from_history, ParameterHistory.append — tied "
     "to the code by fault-injection differential execution only",
-    "regenerated table lean/GlotaranModel/Generated/C15.lean (keys of SUPPORTED_METHODS and "
-    "SUPPORTED_RESIUDAL_FUNCTIONS read from the imported modules)",
+    "regenerated tables lean/GlotaranModel/Generated/C15.lean: keys of SUPPORTED_METHODS and SUPPORTED_RESIUDAL_FUNCTIONS "
+    "read from the imported modules; the effectful statements of Optimizer.__init__/calculate_penalty/"
+    "objective_function/optimize/create_result in source order, extracted with Python's ast by this harness (the "
+    "extractor classifies statements by the calls they contain; a call on a followed object it cannot explain becomes "
+    "`unknown`, which the machine turns into an internal error, so the theorems stop compiling); what ONE statement does "
+    "is hand-written in lean/GlotaranModel/C15.lean",
+    "C11's parameter model (lean/GlotaranModel/C11.lean: toOpt/fromOpt, arrays, setFromArrays, one update pass) plugged into "
+    "the machine by lean/GlotaranModel/C15Params.lean; log/exp are symbolic terms which this harness evaluates with numpy "
+    "doubles; expressions are sent as ASTs written next to the scheme definitions of this harness",
     "harness instrumentation: wrappers around Optimizer.objective_function / calculate_penalty / optimize / "
     "create_result, OptimizationGroup.calculate and the name `least_squares` in optimizer.py (observation only)",
 ]
 ASSUMPTIONS = [
+    "value model: expressions refer to parameters that are not themselves defined by an expression (one update pass is the "
+    "fixed point; C12 covers chains); optimiser vectors are finite (non-finite vectors are outside the value model and the "
+    "driver answers `unmodelled`); parameter labels are pairwise different (dictionary keys)",
     "scipy.optimize.least_squares calls the objective a finite number of times and does not catch exceptions of "
     "the objective (the adversary of the model); what it does with non-finite residuals is observed, not proved",
     "the fault-free run is deterministic, so 'the k-th evaluation' denotes the same evaluation in the faulted run",
@@ -56,7 +80,10 @@ RULE = (
     "last calculate_matrix call of EVERY evaluation 1..N of the fault-free run (thorough: every call), N includes "
     "the two evaluations of create_result; plus the fault-free run and every kind of invalid scheme (missing data, "
     "parameters None, unknown method, missing parameter label, unknown residual function, and combinations that "
-    "fix the validation order). quick: scheme 'one' exhaustively over 3 methods x verbose x raise_exception x all "
+    "fix the validation order). Every valid case is run through the control-flow machine (`run`, vector ids) and, when all "
+    "observed vectors are finite, through the value machine (`runp`: C11 parameter sets over exact rationals; restored / "
+    "optimised parameter values, every history row, the parameter sets the additional penalties and the result data were "
+    "computed from are compared as doubles). quick: scheme 'one' exhaustively over 3 methods x verbose x raise_exception x all "
     "evaluations, a seeded sample on the other schemes; thorough: all schemes (two dataset groups with different "
     "residual functions, linked datasets, index-dependent + non-negative/fixed/expression parameters). A case is "
     "non-trivial when a fault was actually hit or the scheme is invalid; distinct = distinct case tuples."
@@ -74,6 +101,315 @@ def _lean_str(s: str) -> str:
     return '"' + s.replace("\\", "\\\\").replace('"', '\\"') + '"'
 
 
+# ---- statement tables: the effectful statements of optimizer.py in source order (ast) -----------------
+def _u(node) -> str:
+    import ast
+
+    return ast.unparse(node)
+
+
+def _param_ref(node) -> str | None:
+    """which Parameters object an expression denotes (ParamRef of C15Types.lean)"""
+    t = _u(node)
+    return {"self._parameters": ".own", "self._parameters.copy()": ".ownCopy",
+            "scheme.parameters": ".scheme", "self._scheme.parameters": ".scheme",
+            "scheme.parameters.copy()": ".schemeCopy", "self._scheme.parameters.copy()": ".schemeCopy"}.get(t)
+
+
+def _unknown(node) -> str:
+    return f".unknown {_lean_str(' '.join(_u(node).split())[:120])}"
+
+
+# calls on the objects the model follows; a call on one of them that no rule explains becomes `unknown`
+_TRACKED = re.compile(
+    r"^(self\._parameters\.|self\._parameter_history\.(append|get_parameters)|self\._scheme\.parameters\.|"
+    r"scheme\.parameters\.|self\.(calculate_penalty|objective_function|calculate_covariance_matrix_and_standard_errors|"
+    r"create_result|optimize)$|group\.(calculate|create_result_data|get_additional_penalties)$|least_squares$|warn$|"
+    r"Result$|TeeContext$|OptimizationGroup$)")
+
+
+def _calls_in_order(node):
+    """Call nodes below `node` in evaluation order (arguments before the call)"""
+    import ast
+
+    out = []
+
+    def visit(n):
+        for child in ast.iter_child_nodes(n):
+            visit(child)
+        if isinstance(n, ast.Call):
+            out.append(n)
+
+    visit(node)
+    return out
+
+
+def _raises(stmt) -> str | None:
+    import ast
+
+    if isinstance(stmt, ast.Raise) and stmt.exc is not None:
+        e = stmt.exc
+        return _u(e.func) if isinstance(e, ast.Call) else _u(e)
+    return None
+
+
+def _body(fn):
+    import ast
+
+    body = list(fn.body)
+    if body and isinstance(body[0], ast.Expr) and isinstance(body[0].value, ast.Constant) and isinstance(body[0].value.value, str):
+        body = body[1:]
+    return body
+
+
+def _init_steps(fn) -> list[str]:
+    import ast
+
+    steps = []
+    for st in _body(fn):
+        if isinstance(st, ast.If) and len(st.body) == 1 and _raises(st.body[0]) and not st.orelse:
+            exc, test = _raises(st.body[0]), _u(st.test)
+            if exc == "MissingDatasetsError" and "missing_datasets" in test:
+                steps.append(".checkMissingData")
+            elif exc == "ParameterNotInitializedError" and test == "scheme.parameters is None":
+                steps.append(".checkParametersNone")
+            elif exc == "UnsupportedMethodError" and test == "scheme.optimization_method not in SUPPORTED_METHODS":
+                steps.append(".checkMethod")
+            else:
+                steps.append(_unknown(st))
+            continue
+        if isinstance(st, (ast.If, ast.For, ast.While, ast.With, ast.Try, ast.Raise, ast.Return)):
+            steps.append(_unknown(st))
+            continue
+        for call in _calls_in_order(st):
+            f = _u(call.func)
+            if not _TRACKED.match(f):
+                continue
+            if f == "scheme.parameters.copy" and isinstance(st, ast.Assign) and _u(st.targets[0]) == "self._parameters" \
+                    and st.value is call:
+                steps.append(".copyParameters")
+            elif f == "TeeContext" and isinstance(st, ast.Assign) and _u(st.targets[0]) == "self._tee":
+                steps.append(".createTee")
+            elif f == "OptimizationGroup" and isinstance(st, ast.Assign) and _u(st.targets[0]) == "self._optimization_groups":
+                steps.append(".createGroups")
+            elif f == "self._parameter_history.append" and len(call.args) == 1 and _param_ref(call.args[0]):
+                steps.append(f".appendHistory {_param_ref(call.args[0])}")
+            elif f in ("self._parameters.copy", "scheme.parameters.copy", "self._scheme.parameters.copy") and any(
+                    c is not call and call in _calls_in_order(c) for c in _calls_in_order(st)):
+                continue            # the `.copy()` inside an argument: part of the ParamRef of the outer call
+            else:
+                steps.append(_unknown(call))
+    return steps
+
+
+def _penalty_steps(fn) -> list[str]:
+    steps = []
+    for st in _body(fn):
+        for call in _calls_in_order(st):
+            f = _u(call.func)
+            if not _TRACKED.match(f):
+                continue
+            if f == "group.calculate" and [_u(a) for a in call.args] == ["self._parameters"]:
+                steps.append(".evaluate")
+            elif f == "self._parameter_history.append" and call.args and _param_ref(call.args[0]):
+                steps.append(f".appendHistory {_param_ref(call.args[0])}")
+            elif f.endswith(".copy"):
+                continue
+            else:
+                steps.append(_unknown(call))
+    return steps
+
+
+def _objective_steps(fn) -> list[str]:
+    arg = fn.args.args[1].arg if len(fn.args.args) > 1 else "?"
+    steps = []
+    for st in _body(fn):
+        for call in _calls_in_order(st):
+            f = _u(call.func)
+            if not _TRACKED.match(f):
+                continue
+            if f == "self._parameters.set_from_label_and_value_arrays" and \
+                    [_u(a) for a in call.args] == ["self._free_parameter_labels", arg]:
+                steps.append(".setFree")
+            elif f == "self.calculate_penalty" and not call.args:
+                steps.append(".calculatePenalty")
+            else:
+                steps.append(_unknown(call))
+    return steps
+
+
+def _optimize_table(fn) -> dict:
+    import ast
+
+    body = _body(fn)
+    bad = {"start": ".own", "tee": False, "try": [f".unknown {_lean_str('optimize(): unexpected shape')}"], "handler": []}
+
+    def tracked(st):
+        return any(_TRACKED.match(_u(c.func)) or _u(c.func).endswith("get_label_value_and_bounds_arrays")
+                   for c in _calls_in_order(st)) or "self._termination_reason" in _u(st) or "self._optimization_result" in _u(st)
+
+    # pure statements (e.g. `verbose = 2 if self._verbose else 0`) may stand anywhere
+    body = [st for st in body if isinstance(st, (ast.With, ast.Try, ast.If, ast.For, ast.While, ast.Raise, ast.Return))
+            or tracked(st)]
+    if len(body) != 2 or not isinstance(body[0], ast.Assign) or not isinstance(body[1], ast.With):
+        return bad
+    v = body[0].value
+    if not (isinstance(v, ast.Call) and isinstance(v.func, ast.Attribute) and v.func.attr == "get_label_value_and_bounds_arrays"
+            and _param_ref(v.func.value) and [(k.arg, _u(k.value)) for k in v.keywords] == [("exclude_non_vary", "True")]
+            and not v.args):
+        return bad
+    w = body[1]
+    if [_u(i.context_expr) for i in w.items] != ["self._tee"] or len(w.body) != 1 or not isinstance(w.body[0], ast.Try):
+        return bad
+    tr = w.body[0]
+    if tr.orelse or tr.finalbody or len(tr.handlers) != 1 or _u(tr.handlers[0].type) != "Exception":
+        return bad
+    ename = tr.handlers[0].name
+    try_steps = []
+    for st in tr.body:
+        t = _u(st)
+        if isinstance(st, ast.Assign) and _u(st.targets[0]) == "self._optimization_result" and isinstance(st.value, ast.Call) \
+                and _u(st.value.func) == "least_squares" and st.value.args and _u(st.value.args[0]) == "self.objective_function":
+            try_steps.append(".leastSquares")
+        elif t == "self._termination_reason = self._optimization_result.message":
+            try_steps.append(".setReasonFromResult")
+        elif any(_TRACKED.match(_u(c.func)) for c in _calls_in_order(st)) or "self._termination_reason" in t \
+                or "self._optimization_result" in t:
+            try_steps.append(_unknown(st))
+    handler = []
+    for st in tr.handlers[0].body:
+        t = _u(st)
+        if isinstance(st, ast.If) and _u(st.test) == "self._raise" and not st.orelse and len(st.body) == 1 \
+                and isinstance(st.body[0], ast.Raise) and (st.body[0].exc is None or _u(st.body[0].exc) == ename):
+            handler.append(".reraiseIfRaise")
+        elif isinstance(st, ast.Expr) and isinstance(st.value, ast.Call) and _u(st.value.func) == "warn":
+            handler.append(".warn")
+        elif t == f"self._termination_reason = str({ename})":
+            handler.append(".setReasonFromException")
+        elif isinstance(st, (ast.Raise, ast.If, ast.Return, ast.Try, ast.With)) or "self._" in t:
+            handler.append(_unknown(st))
+    return {"start": _param_ref(v.func.value), "tee": True, "try": try_steps, "handler": handler}
+
+
+_RESULT_ARGS = {
+    "parameter_history": ("self._parameter_history", ".bindHistory"),
+    "termination_reason": ("self._termination_reason", ".readReason"),
+    "number_of_function_evaluations": (
+        "self._optimization_result.nfev if success else self._parameter_history.number_of_records", ".readNfev"),
+}
+
+
+def _create_result_steps(fn) -> list[str]:
+    import ast
+
+    steps = []
+    # the local that holds `self._optimization_result is not None` (whatever it is called)
+    succ = next((_u(st.targets[0]) for st in ast.walk(fn) if isinstance(st, ast.Assign) and len(st.targets) == 1
+                 and isinstance(st.targets[0], ast.Name) and _u(st.value) == "self._optimization_result is not None"), "success")
+
+    def emit(guard, step):
+        steps.append(f"⟨{guard}, {step}⟩")
+
+    def effects(st, guard):
+        # entries of the `result_args = {...}` literal, in order
+        if isinstance(st, ast.Assign) and isinstance(st.value, ast.Dict) and _u(st.targets[0]) == "result_args":
+            for k, v in zip(st.value.keys, st.value.values):
+                for call in _calls_in_order(v):
+                    if _TRACKED.match(_u(call.func)):
+                        emit(guard, _unknown(call))
+                key = k.value if isinstance(k, ast.Constant) else None
+                if key in _RESULT_ARGS:
+                    want, step = _RESULT_ARGS[key]
+                    emit(guard, step if _u(v) == want.replace("if success else", f"if {succ} else") else _unknown(v))
+            return
+        if isinstance(st, ast.Assign) and _u(st.targets[0]) == succ:
+            emit(guard, ".readSuccess" if _u(st.value) == "self._optimization_result is not None" else _unknown(st))
+            return
+        if isinstance(st, ast.Assign) and _u(st.targets[0]) == "result_args['optimized_parameters']":
+            emit(guard, ".bindParameters" if _u(st.value) == "self._parameters" else _unknown(st))
+            return
+        if isinstance(st, ast.Assign) and isinstance(st.targets[0], ast.Subscript) and _u(st.targets[0].value) == "result_args" \
+                and isinstance(st.targets[0].slice, ast.Constant) and st.targets[0].slice.value in _RESULT_ARGS:
+            emit(guard, _unknown(st))      # one of the followed entries is assigned outside the literal
+            return
+        for call in _calls_in_order(st):
+            f = _u(call.func)
+            if not _TRACKED.match(f):
+                continue
+            args = [_u(a) for a in call.args]
+            if f == "self._parameters.set_from_history" and len(args) == 2 and args[0] == "self._parameter_history" \
+                    and re.fullmatch(r"-\d+", args[1]):
+                emit(guard, f".restore {args[1][1:]}")
+            elif f == "self._parameters.set_from_label_and_value_arrays" and \
+                    args == ["self._free_parameter_labels", "self._optimization_result.x"]:
+                emit(guard, ".setFromResult")
+            elif f == "self.calculate_covariance_matrix_and_standard_errors":
+                emit(guard, ".covariance")
+            elif f == "self.calculate_penalty" and not args:
+                emit(guard, ".calculatePenalty")
+            elif f == "group.get_additional_penalties":
+                emit(guard, ".readAdditionalPenalty")
+            elif f == "group.calculate" and args == ["self._parameters"]:
+                emit(guard, ".finalCalculate")
+            elif f == "group.create_result_data":
+                emit(guard, ".createResultData")
+            elif f == "Result" and isinstance(st, ast.Return):
+                emit(guard, ".construct")
+            else:
+                emit(guard, _unknown(call))
+
+    def walk(stmts, guard):
+        for st in stmts:
+            if isinstance(st, ast.If):
+                t = _u(st.test)
+                if t == "self._parameter_history.number_of_records == 1" and len(st.body) == 1 \
+                        and _raises(st.body[0]) == "InitialParameterError":
+                    emit(guard, ".checkInitial")
+                    walk(st.orelse, guard)
+                elif t in (succ, f"not {succ}") and guard == ".always":
+                    walk(st.body, ".ifSuccess" if t == succ else ".ifNotSuccess")
+                    walk(st.orelse, ".ifNotSuccess" if t == succ else ".ifSuccess")
+                else:
+                    emit(guard, _unknown(st.test))
+            elif isinstance(st, ast.For):
+                if _u(st.iter) == "self._optimization_groups" and _u(st.target) == "group" and not st.orelse:
+                    for inner in st.body:
+                        effects(inner, guard)
+                else:
+                    emit(guard, _unknown(st))
+            elif isinstance(st, (ast.While, ast.With, ast.Try, ast.Raise)):
+                emit(guard, _unknown(st))
+            else:
+                effects(st, guard)
+
+    walk(_body(fn), ".always")
+    return steps
+
+
+def source_tables() -> dict:
+    import ast
+
+    core.import_glotaran()
+    from glotaran.optimization import optimizer as om
+
+    tree = ast.parse(Path(om.__file__).read_text())
+    cls = next(n for n in tree.body if isinstance(n, ast.ClassDef) and n.name == "Optimizer")
+    fns = {n.name: n for n in cls.body if isinstance(n, ast.FunctionDef)}
+    return {
+        "init": _init_steps(fns["__init__"]),
+        "penalty": _penalty_steps(fns["calculate_penalty"]),
+        "objective": _objective_steps(fns["objective_function"]),
+        "optimize": _optimize_table(fns["optimize"]),
+        "create_result": _create_result_steps(fns["create_result"]),
+    }
+
+
+def _lean_list(items, indent="  ") -> str:
+    if not items:
+        return "[]"
+    return "[\n" + ",\n".join(indent + x for x in items) + "]"
+
+
 def generate(ck):
     core.import_glotaran()
     from glotaran.optimization import estimation_provider as ep
@@ -81,14 +417,34 @@ def generate(ck):
 
     methods = list(om.SUPPORTED_METHODS.keys())
     resid = list(ep.SUPPORTED_RESIUDAL_FUNCTIONS.keys())
+    t = source_tables()
+    opt = t["optimize"]
     text = (
-        "/- GENERATED by harness/props/c15.py from glotaran/optimization/optimizer.py (SUPPORTED_METHODS)\n"
-        "   and glotaran/optimization/estimation_provider.py (SUPPORTED_RESIUDAL_FUNCTIONS). Do not edit. -/\n"
-        "namespace Glotaran.C15.Generated\n\n"
+        "/- GENERATED by harness/props/c15.py from glotaran/optimization/optimizer.py (SUPPORTED_METHODS; the\n"
+        "   effectful statements of Optimizer.__init__, calculate_penalty, objective_function, optimize and\n"
+        "   create_result in source order, read with `ast`) and glotaran/optimization/estimation_provider.py\n"
+        "   (SUPPORTED_RESIUDAL_FUNCTIONS). Do not edit. -/\n"
+        "import GlotaranModel.C15Types\n"
+        "namespace Glotaran.C15.Generated\n"
+        "open Glotaran.C15\n\n"
         "/-- keys of `SUPPORTED_METHODS`, in source order -/\n"
         f"def supportedMethods : List String := [{', '.join(map(_lean_str, methods))}]\n\n"
         "/-- keys of `SUPPORTED_RESIUDAL_FUNCTIONS`, in source order -/\n"
         f"def supportedResidualFunctions : List String := [{', '.join(map(_lean_str, resid))}]\n\n"
+        "/-- `Optimizer.__init__` -/\n"
+        f"def initSteps : List InitStep := {_lean_list(t['init'])}\n\n"
+        "/-- `Optimizer.calculate_penalty` -/\n"
+        f"def penaltySteps : List PenaltyStep := {_lean_list(t['penalty'])}\n\n"
+        "/-- `Optimizer.objective_function` -/\n"
+        f"def objectiveSteps : List ObjectiveStep := {_lean_list(t['objective'])}\n\n"
+        "/-- `Optimizer.optimize` -/\n"
+        "def optimizeTable : OptimizeTable :=\n"
+        f"  {{ startVector := {opt['start']},\n"
+        f"    teeWrapsTry := {'true' if opt['tee'] else 'false'},\n"
+        f"    tryBody := {_lean_list(opt['try'], '      ')},\n"
+        f"    handler := {_lean_list(opt['handler'], '      ')} }}\n\n"
+        "/-- `Optimizer.create_result` -/\n"
+        f"def createResultSteps : List GStep := {_lean_list(t['create_result'])}\n\n"
         "end Glotaran.C15.Generated\n"
     )
     if not LEAN_GEN.exists() or LEAN_GEN.read_text() != text:
@@ -96,7 +452,11 @@ def generate(ck):
         LEAN_GEN.write_text(text)
     return [{"table": "Consts(C15): SUPPORTED_METHODS keys, SUPPORTED_RESIUDAL_FUNCTIONS keys",
              "source": "glotaran/optimization/optimizer.py, glotaran/optimization/estimation_provider.py",
-             "sha1": hashlib.sha1(text.encode()).hexdigest()}]
+             "sha1": hashlib.sha1((repr(methods) + repr(resid)).encode()).hexdigest()},
+            {"table": "Statements(C15): effectful statements of Optimizer.__init__ / calculate_penalty / objective_function / "
+                      "optimize / create_result in source order",
+             "source": "glotaran/optimization/optimizer.py (ast)",
+             "sha1": hashlib.sha1(json.dumps(t, sort_keys=True).encode()).hexdigest()}]
 
 
 # ------------------------------------------------------------------------------------------
@@ -155,7 +515,13 @@ def _dataset(t, g, rates, amps):
     return xr.DataArray(a @ np.asarray(amps, dtype=float).T, coords=[("model", t), ("global", g)]).to_dataset(name="data")
 
 
-SCHEMES = ["one", "two-groups", "linked", "indexdep-nonneg", "one-long", "unlinked-weighted"]
+SCHEMES = ["one", "two-groups", "linked", "indexdep-nonneg", "one-long", "unlinked-weighted", "stale-expr"]
+
+#: the expressions used by the schemes, as the AST the value model evaluates (C11 `Ast`: ref | c | add | mul)
+SCHEME_EXPRS = {
+    "2 * $k.2 + 0.004": ["add", ["mul", ["c", 2.0], ["ref", "k.2"]], ["c", 0.004]],
+    "$k.1 * 0.5": ["mul", ["ref", "k.1"], ["c", 0.5]],
+}
 
 
 def build_scheme(name: str, method: str):
@@ -201,6 +567,20 @@ def build_scheme(name: str, method: str):
                                              ["2", 0.02, {"min": 0.0, "max": 1.0}],
                                              ["3", 0.044, {"expr": "2 * $k.2 + 0.004"}]],
                                        "fixed": [["1", 5.0, {"vary": False}]]})
+        kw = {"add_svd": False}
+    elif name == "stale-expr":
+        # non-negative free + fixed parameters, a parameter at the guard value 1 of `_log_value`, and an expression
+        # parameter whose stored value is STALE when optimize() is called (a free value was changed after construction)
+        model = M(**{"megacomplex": {"m1": {"type": "verif-c15-fault-mc", "is_index_dependent": False}},
+                     "dataset": {"d1": {"megacomplex": ["m1"], "kinetic": ["k.1", "k.2", "k.3"]}}})
+        data = {"d1": _dataset(t, np.array([1.0, 2.0, 3.0, 4.0]), [0.11, 0.022, 0.055],
+                               [[1, 2, 0], [3, 1, 1], [0.5, 2, 1], [1, 1, 3]])}
+        params = Parameters.from_dict({"k": [["1", 0.1, {"non-negative": True}],
+                                             ["2", 0.02, {"min": 0.0, "max": 1.0}],
+                                             ["3", 0.05, {"expr": "$k.1 * 0.5"}]],
+                                       "one": [["1", 1.0, {"vary": False, "non-negative": True}]],
+                                       "fixed": [["1", 5.0, {"vary": False, "non-negative": True}]]})
+        params.get("k.1").value = 0.12       # k.3 keeps the value computed from 0.1
         kw = {"add_svd": False}
     elif name == "unlinked-weighted":
         import xarray as xr
@@ -334,6 +714,9 @@ class Trace:
         self.rows_before_failure = None
         self.tee_seen = True     # sys.stdout was the optimizer's tee during every objective call
         self.last_obj_exc = None
+        self.last_calc = None    # values of all parameters (bytes) at the last group.calculate that returned
+        self.penalty_of = None   # ... at the time create_result read the additional penalties
+        self.data_of = None      # ... the final evaluation of create_result was performed with
 
 
 @contextlib.contextmanager
@@ -344,8 +727,14 @@ def instrumented(trace: Trace):
 
     Opt = om.Optimizer
     saved = (Opt.objective_function, Opt.calculate_penalty, Opt.optimize, Opt.create_result,
-             OptimizationGroup.calculate, om.least_squares, Opt.calculate_covariance_matrix_and_standard_errors)
-    o_obj, o_pen, o_opt, o_res, o_calc, o_lsq, o_cov = saved
+             OptimizationGroup.calculate, om.least_squares, Opt.calculate_covariance_matrix_and_standard_errors,
+             OptimizationGroup.get_additional_penalties)
+    o_obj, o_pen, o_opt, o_res, o_calc, o_lsq, o_cov, o_add = saved
+
+    def get_additional_penalties(self):
+        if trace.phase == "create_result" and not trace.in_penalty:
+            trace.penalty_of = trace.last_calc
+        return o_add(self)
 
     def covariance(self, *a, **kw):
         try:
@@ -394,11 +783,15 @@ def instrumented(trace: Trace):
             trace.sweeps += 1
             trace.final = "ok"
         try:
-            return o_calc(self, parameters)
+            r = o_calc(self, parameters)
         except BaseException as e:
             if outer:
                 trace.final = str(e)
             raise
+        trace.last_calc = (values_of(parameters), free_vector_of(parameters))
+        if outer:
+            trace.data_of = trace.last_calc
+        return r
 
     def least_squares(fun, x0, *a, **kw):
         try:
@@ -432,11 +825,32 @@ def instrumented(trace: Trace):
     OptimizationGroup.calculate = calculate
     om.least_squares = least_squares
     Opt.calculate_covariance_matrix_and_standard_errors = covariance
+    OptimizationGroup.get_additional_penalties = get_additional_penalties
     try:
         yield
     finally:
         (Opt.objective_function, Opt.calculate_penalty, Opt.optimize, Opt.create_result,
-         OptimizationGroup.calculate, om.least_squares, Opt.calculate_covariance_matrix_and_standard_errors) = saved
+         OptimizationGroup.calculate, om.least_squares, Opt.calculate_covariance_matrix_and_standard_errors,
+         OptimizationGroup.get_additional_penalties) = saved
+
+
+def values_of(parameters) -> bytes:
+    """the values of all parameters, in declaration order (no array is read: nothing is refreshed)"""
+    return np.array([float(p.value) for p in parameters.all()], dtype=float).tobytes()
+
+
+def free_vector_of(parameters) -> bytes:
+    """the optimiser-space values of the varying parameters, read parameter by parameter (nothing is refreshed)"""
+    return np.array([float(p.get_value_and_bounds_for_optimization()[0]) for p in parameters.all() if p.vary],
+                    dtype=float).tobytes()
+
+
+def param_desc(parameters):
+    """[(label, value, min, max, non_negative, vary, expression)] without touching the object"""
+    if parameters is None:
+        return None
+    return [(p.label, float(p.value), float(p.minimum), float(p.maximum), bool(p.non_negative), bool(p.vary), p.expression)
+            for p in parameters.all()]
 
 
 class Obs:
@@ -485,6 +899,7 @@ def execute(case, scheme=None, desc=None) -> Obs:
             o.x0 = np.array(scheme.parameters.copy().get_label_value_and_bounds_arrays(exclude_non_vary=True)[1],
                             dtype=float).tobytes()
     before = snapshot(scheme)
+    o.pdesc = param_desc(scheme.parameters)
     INJ.reset(case.get("fault"))
     INJ.trace = o.trace
     mine = io.StringIO()
@@ -633,11 +1048,22 @@ def canonical(o: Obs, ids: Ids, stdout_id=7):
         else:
             # the record the model names must be the one the result parameters equal; report the model-independent
             # candidates: indices (before create_result appended its own record) whose row equals the result row
-            cands = [i for i, row in enumerate(t.rows_before_failure or []) if row == res_row]
+            # (non-negative parameters: exp(log v) is v only up to rounding — rows are compared at 1e-12 there)
+            def same_row(a: bytes, b: bytes) -> bool:
+                if a == b:
+                    return True
+                if exact_space(o):
+                    return False
+                x, y = np.frombuffer(a, dtype=float), np.frombuffer(b, dtype=float)
+                return x.shape == y.shape and bool(np.allclose(x, y, rtol=1e-12, atol=0.0))
+
+            cands = [i for i, row in enumerate(t.rows_before_failure or []) if same_row(row, res_row)]
             restored = "|".join(map(str, cands)) if cands else "no-record"
         hist_ids = [match_row(row, i, ids, o) for i, row in enumerate(rows)]
+        pen = "none" if t.penalty_of is None else match_vector(np.frombuffer(t.penalty_of[1], dtype=float), ids, o)
+        dat = "none" if t.data_of is None else match_vector(np.frombuffer(t.data_of[1], dtype=float), ids, o)
         head = (f"result {bool_(r.success)} {enc(str(r.termination_reason))} {pid} {restored} "
-                f"{int(r.number_of_function_evaluations)} {core.lst(map(str, hist_ids))}")
+                f"{int(r.number_of_function_evaluations)} {core.lst(map(str, hist_ids))} {pen} {dat}")
     ok = []
     for c in t.obj:
         if c["ok"]:
@@ -699,8 +1125,10 @@ def compare_one(ck, o: Obs, ids: Ids, ans: str, tag: str, payload):
             diffs.append(f"exception: implementation {head_i!r}, model {head_m!r}")
     else:
         names = ["", "success", "termination_reason", "parameters(vector id)", "restored history record",
-                 "number_of_function_evaluations", "parameter_history(vector ids)"]
-        for j in range(1, 7):
+                 "number_of_function_evaluations", "parameter_history(vector ids)",
+                 "parameters the additional penalties were read for (vector id)",
+                 "parameters the result data were computed from (vector id)"]
+        for j in range(1, 9):
             a, b = hi[j], hm[j]
             if j == 4 and a != b:
                 if b != "none" and b in a.split("|"):
@@ -718,6 +1146,189 @@ def compare_one(ck, o: Obs, ids: Ids, ans: str, tag: str, payload):
         diffs.append(f"number of model evaluations: implementation {extra['evals']}, model {kv['evals']}")
     for d in diffs[:1]:
         ck.disagree("model-vs-impl", f"[{tag}] {d}" + (f" (+{len(diffs) - 1} more)" if len(diffs) > 1 else ""), payload)
+    return not diffs
+
+
+# ------------------------------------------------------------------------------------------
+# the value machine (`runp`): C11's parameter model inside the state machine
+# ------------------------------------------------------------------------------------------
+def _ext(x) -> str:
+    x = float(x)
+    return "nan" if x != x else core.erat(x)
+
+
+def _vec_tok(b: bytes) -> str:
+    return lst(_ext(v) for v in np.frombuffer(b, dtype=float))
+
+
+def _ast_tok(a) -> str:
+    if a[0] == "ref":
+        return lst(["ref", enc(a[1])])
+    if a[0] == "c":
+        return lst(["c", core.rat(a[1])])
+    return lst([a[0], _ast_tok(a[1]), _ast_tok(a[2])])
+
+
+def params_tok(desc) -> str:
+    if desc is None:
+        return "none"
+    return lst(lst([enc(l), _ext(v), _ext(lo), _ext(hi), bool_(nn), bool_(vy), enc(e) if e else "none", "nan"])
+               for (l, v, lo, hi, nn, vy, e) in desc)
+
+
+def table_tok(desc) -> str:
+    exprs = sorted({e for (*_, e) in (desc or []) if e})
+    for e in exprs:
+        if e not in SCHEME_EXPRS:
+            raise core.HarnessError(f"no AST for the expression {e!r}")
+    return lst(lst([enc(e), _ast_tok(SCHEME_EXPRS[e])]) for e in exprs)
+
+
+def value_line(o: Obs, stdout_id=7):
+    """the observed run as a `runp` line; None when a vector is not finite (outside the value model)"""
+    t, case, desc = o.trace, o.case, o.desc
+    vecs = [c["x"] for c in t.obj] + ([t.lsq[1]] if t.lsq is not None and t.lsq[0] == "ret" else [])
+    if any(not np.all(np.isfinite(np.frombuffer(b, dtype=float))) for b in vecs):
+        return None
+    if o.pdesc is not None and any(not np.isfinite(v) for (_, v, *_rest) in o.pdesc):
+        return None
+    calls = lst(lst([_vec_tok(c["x"]), _opt(None if c["ok"] else c["msg"])]) for c in t.obj)
+    if t.lsq is None or t.lsq[0] == "objective-fault":
+        fin = lst(["ret", "[]", "0", enc("unreached")])
+    elif t.lsq[0] == "ret":
+        fin = lst(["ret", _vec_tok(t.lsq[1]), str(t.lsq[2]), enc(t.lsq[3])])
+    else:
+        fin = lst(["raise", enc(t.lsq[1])])
+    pen = None if t.penalty in (None, "ok") else t.penalty
+    final = None if t.final in (None, "ok") else t.final
+    groups = lst(lst([_opt(g[0]), enc(g[1])]) for g in desc["groups"])
+    return " ".join([
+        "runp", str(stdout_id), bool_(case["verbose"]), bool_(case["raise"]), strs(desc["missing"]),
+        params_tok(o.pdesc), table_tok(o.pdesc), enc(desc["method"]), groups, calls, fin,
+        _opt(pen), _opt(final), _opt(t.cov), _opt(t.data),
+    ])
+
+
+def term_value(t) -> float:
+    """a printed C11 term evaluated with the code's own elementary double operations"""
+    if isinstance(t, str):
+        if t in ("inf", "-inf", "nan"):
+            return float(t)
+        fr = core.unrat(t)
+        return fr.numerator / fr.denominator
+    op, a = t[0], t[1:]
+    with np.errstate(all="ignore"):
+        if op == "ifeq":
+            return term_value(a[2] if term_value(a[0]) == term_value(a[1]) else a[3])
+        if op == "iflt":
+            return term_value(a[2] if term_value(a[0]) < term_value(a[1]) else a[3])
+        v = [np.float64(term_value(x)) for x in a]
+        if op == "add":
+            return float(v[0] + v[1])
+        if op == "sub":
+            return float(v[0] - v[1])
+        if op == "mul":
+            return float(v[0] * v[1])
+        if op == "abs":
+            return float(np.abs(v[0]))
+        if op == "log":
+            return float(np.log(v[0]))
+        if op == "exp":
+            return float(np.exp(v[0]))
+    raise core.HarnessError(f"unknown term {t!r}")
+
+
+VALUE_RTOL = 1e-13
+
+
+def _close(a: float, b: float) -> bool:
+    if a != a or b != b:
+        return a != a and b != b
+    return a == b or abs(a - b) <= VALUE_RTOL * max(abs(a), abs(b))
+
+
+def _pset_diff(model_tree, impl_values, labels, what):
+    """model: [[label, term], ...]; impl: values in declaration order"""
+    if model_tree == "none" or impl_values is None:
+        return None if (model_tree == "none") == (impl_values is None) else \
+            f"{what}: implementation {'none' if impl_values is None else 'present'}, model {'none' if model_tree == 'none' else 'present'}"
+    got = list(np.frombuffer(impl_values, dtype=float)) if isinstance(impl_values, bytes) else list(impl_values)
+    if [core.dec(x[0]) for x in model_tree] != list(labels) or len(got) != len(labels):
+        return f"{what}: labels differ (model {[core.dec(x[0]) for x in model_tree]}, implementation {list(labels)})"
+    for (l, term), g in zip(model_tree, got):
+        m = term_value(term)
+        if not _close(m, float(g)):
+            return f"{what}: parameter {core.dec(l)}: implementation {float(g)!r}, model {m!r} (term {term})"
+    return None
+
+
+def compare_values(ck, o: Obs, ans: str, payload) -> bool:
+    """diff the real Result with the value machine's answer (`runp`)"""
+    if ans == "unmodelled":
+        ck.count("values:unmodelled")
+        return True
+    if ans in ("bad-op", "bad-line"):
+        raise core.HarnessError(f"value model rejected the line for {payload}: {ans}")
+    head, kv = parse_model_answer(ans)
+    toks = head.split(" ")
+    diffs = []
+    if o.exc is not None:
+        want = canonical_exception(o)
+        if head != want:
+            diffs.append(f"outcome: implementation {want!r}, model {head!r}")
+    elif toks[0] != "result":
+        diffs.append(f"outcome: implementation a Result, model {head!r}")
+    else:
+        r, t = o.result, o.trace
+        labels = [p.label for p in r.optimized_parameters.all()]
+        if toks[1] != bool_(r.success):
+            diffs.append(f"success: implementation {r.success}, model {toks[1]}")
+        if toks[2] != enc(str(r.termination_reason)):
+            diffs.append(f"termination_reason: implementation {str(r.termination_reason)!r}, model {core.dec(toks[2])!r}")
+        if toks[5] != str(int(r.number_of_function_evaluations)):
+            diffs.append(f"number_of_function_evaluations: implementation {r.number_of_function_evaluations}, model {toks[5]}")
+        d = _pset_diff(core.parse_tree(toks[3])[0], values_of(r.optimized_parameters), labels, "optimized_parameters values")
+        if d:
+            diffs.append(d)
+        rows_m = core.parse_tree(toks[6])[0]
+        rows_i = [np.array(row[1:], dtype=float) for row in r.parameter_history.parameters]
+        if len(rows_m) != len(rows_i):
+            diffs.append(f"parameter_history: implementation {len(rows_i)} records, model {len(rows_m)}")
+        else:
+            for i, (rm, ri) in enumerate(zip(rows_m, rows_i)):
+                if len(rm) != len(ri) or not all(_close(term_value(a), float(b)) for a, b in zip(rm, ri)):
+                    diffs.append(f"parameter_history record {i}: implementation {[float(x) for x in ri]}, model "
+                                 f"{[term_value(a) for a in rm]}")
+                    break
+        for tok, impl, what in ((toks[7], t.penalty_of and t.penalty_of[0], "parameters the additional penalties were read for"),
+                                (toks[8], t.data_of and t.data_of[0], "parameters the result data were computed from")):
+            tree = "none" if tok == "none" else core.parse_tree(tok)[0]
+            d = _pset_diff(tree, impl, labels, what)
+            if d:
+                diffs.append(d)
+        if not r.success and toks[4] != "none":
+            # the restored record, by value: the row the model names, mapped back, is what the Result holds
+            ck.count("values:restored-record-compared")
+    stdout = "user:7" if o.stdout_restored else "not-restored"
+    if stdout != kv["stdout"]:
+        diffs.append(f"sys.stdout: implementation {stdout}, model {kv['stdout']}")
+    if strs(o.warnings) != kv["warnings"]:
+        diffs.append(f"warnings: implementation {strs(o.warnings)}, model {kv['warnings']}")
+    # the caller's scheme in the model: same shape, and every parameter value (a term) still the double it was
+    model_same = kv["scheme"] == "T"
+    if model_same and o.pdesc is not None:
+        tree = core.parse_tree(kv["schemeparams"])[0]
+        model_same = tree != "none" and len(tree) == len(o.pdesc) and all(
+            core.dec(l) == d[0] and (term_value(term) == d[1] or (term_value(term) != term_value(term) and d[1] != d[1]))
+            for (l, term), d in zip(tree, o.pdesc))
+    if (not o.snapshot_diff) != model_same:
+        diffs.append(f"scheme untouched: implementation {not o.snapshot_diff} ({o.snapshot_diff}), model {model_same}")
+    if str(o.trace.sweeps) != kv["evals"]:
+        diffs.append(f"number of model evaluations: implementation {o.trace.sweeps}, model {kv['evals']}")
+    for d in diffs[:1]:
+        ck.disagree("model-vs-impl-values", f"[value machine] {d}" + (f" (+{len(diffs) - 1} more)" if len(diffs) > 1 else ""),
+                    payload)
+    ck.count("values:compared")
     return not diffs
 
 
@@ -893,9 +1504,16 @@ class Batch:
     def flush(self):
         if not self.items:
             return
+        import time as _t
+        t0 = _t.time()
         answers = core.lean_driver(PROP, [it[0] for it in self.items])
+        self.ck.extra["lean_driver_s"] = round(self.ck.extra.get("lean_driver_s", 0.0) + _t.time() - t0, 1)
+        self.ck.extra["lean_driver_lines"] = self.ck.extra.get("lean_driver_lines", 0) + len(self.items)
         for (line, o, ids, tag, payload), ans in zip(self.items, answers):
-            compare_one(self.ck, o, ids, ans, tag, payload)
+            if tag == "values":
+                compare_values(self.ck, o, ans, payload)
+            else:
+                compare_one(self.ck, o, ids, ans, tag, payload)
         self.items = []
 
 
@@ -937,6 +1555,12 @@ def run_case(ck, case, batch: Batch, count=True):
     oracle(ck, o, free, payload)
     observed = schedule_of(o, ids)
     batch.add(model_line(case, o.desc, observed), o, ids, "observed-schedule", payload)
+    vline = value_line(o)
+    if vline is None:
+        if count:
+            ck.count("values:non-finite-vector-skipped")
+    else:
+        batch.add(vline, o, ids, "values", payload)
     fault = case.get("fault")
     if fault is not None and fault["kind"] in ("raise", "persistent"):
         sched = planned_schedule(free, ids, fault)
@@ -1040,7 +1664,13 @@ def run(ck):
         for verbose in (False, True):
             for rs in (False, True):
                 run_case(ck, {"invalid": kind, "verbose": verbose, "raise": rs}, batch)
-    # 4. fault injection
+    # 4. the value machine where it matters: non-negative free / fixed parameters, a parameter at the guard value 1, a
+    #    stale expression parameter — an exception at every evaluation, every method, contained (raise_exception=False)
+    for case in all_cases(ck, "stale-expr", METHODS, every_call=False, kinds=("raise",)):
+        if not case["verbose"] and not case["raise"]:
+            run_case(ck, case, batch)
+            ck.count("stream:values-nonneg")
+    # 5. fault injection
     if ck.quick:
         cases = all_cases(ck, "one", METHODS, every_call=False)
         extra = []
@@ -1071,7 +1701,9 @@ def run(ck):
     ck.sample({"case": {"scheme": "one", "method": "TrustRegionReflection", "verbose": False, "raise": False,
                         "fault": {"kind": "raise", "at": 5}},
                "compared": "outcome class, success, termination_reason, restored history record, "
-                           "number_of_function_evaluations, history, evaluations, sys.stdout identity, warnings, scheme snapshot"})
+                           "number_of_function_evaluations, history, evaluations, sys.stdout identity, warnings, scheme snapshot; "
+                           "value machine: optimized_parameters values, every history row, the parameter sets the additional "
+                           "penalties / result data were computed from"})
     ck.sample({"case": {"invalid": "unknown-method+missing-label", "verbose": True, "raise": False}})
 
 
